@@ -38,6 +38,9 @@ type procEnv struct {
 	// symbolic directory listing for os.ReadDir / os.Open (C18)
 	dirNames    []Str
 	dirContents []Str
+	// per entry: non-zero = the entry is a symbolic link to a regular file with that content (what
+	// os.Open / os.ReadFile follow, what the go tool accepts as a source file); chosen by the solver
+	dirKinds []*Term
 	dirPath     string
 	scanners    map[*Object]*scanState
 	regexps     map[*Object]*syntax.Prog
@@ -116,11 +119,16 @@ func (m *Machine) initOSGlobal(g *ssa.Global, o *Object) {
 	}
 }
 
-func (m *Machine) direntry(name Str) Iface {
+type direntV struct {
+	name Str
+	kind *Term
+}
+
+func (m *Machine) direntry(name Str, kind *Term) Iface {
 	t := m.P.Pkgs["os"].Type("DirEntry").Type()
 	_ = t
 	return Iface{T: types.NewNamed(types.NewTypeName(0, nil, "modelDirEntry", nil), types.Typ[types.String], nil),
-		V: Opaque{"direntry", name}}
+		V: Opaque{"direntry", direntV{name, kind}}}
 }
 
 // ---------------------------------------------------------------------------
@@ -308,12 +316,13 @@ func init() {
 	hreg("verifSetDir", func(m *Machine, fn *ssa.Function, a []Value) Value {
 		e := m.env()
 		e.dirPath = concStrArg(m, a[0], "dir")
-		e.dirNames, e.dirContents = nil, nil
+		e.dirNames, e.dirContents, e.dirKinds = nil, nil, nil
 		for _, v := range m.SliceVals(a[1].(Slice)) {
 			e.dirNames = append(e.dirNames, v.(Str))
 		}
 		for _, v := range m.SliceVals(a[2].(Slice)) {
 			e.dirContents = append(e.dirContents, v.(Str))
+			e.dirKinds = append(e.dirKinds, m.Nondet("symlink", 8))
 		}
 		return nil
 	})
@@ -485,7 +494,7 @@ func init() {
 		}
 		var vals []Value
 		for _, k := range idx {
-			vals = append(vals, m.direntry(e.dirNames[k]))
+			vals = append(vals, m.direntry(e.dirNames[k], e.dirKinds[k]))
 		}
 		return Tuple{m.MakeSlice(det, vals), Iface{}}
 	})
@@ -825,9 +834,13 @@ func init() {
 	opaqueHandlers["direntry"] = func(m *Machine, o Opaque, name string, args []Value) Value {
 		switch name {
 		case "Name":
-			return o.V.(Str)
+			return o.V.(direntV).name
 		case "IsDir":
 			return m.S.False
+		case "Type":
+			// fs.ModeSymlink for a link, 0 for a regular file (Type reports the entry itself, lstat-like)
+			isLink := m.S.Not(m.S.Eq(o.V.(direntV).kind, m.S.Const(8, 0)))
+			return m.S.Ite(isLink, m.S.Const(32, 1<<27), m.S.Const(32, 0))
 		}
 		m.unsupported("DirEntry." + name)
 		return nil
